@@ -679,7 +679,14 @@ impl Universe {
         let pristine_proc = sys::dup_above(pp, HARNESS_FD_MIN + 2).map_err(|e| format!("dup: {e}"))?;
         sys::close(pp);
         sys::PRISTINE_PROC.store(pristine_proc, Ordering::SeqCst);
-        if !cfg.proc_opts.is_empty() {
+        if cfg.proc_opts == "absent" {
+            // a mount namespace without any /proc (chroot, minimal container): the library has its
+            // own fsopen-based procfs, only its path rendering for error messages looks at /proc
+            let r = unsafe { libc::umount2(b"/proc\0".as_ptr() as *const libc::c_char, libc::MNT_DETACH) };
+            if r != 0 {
+                return Err(format!("umount /proc: {}", sys::errname(sys::errno())));
+            }
+        } else if !cfg.proc_opts.is_empty() {
             // a *new* procfs instance with the options under test, mounted on /proc
             sys::mount("proc", b"/proc", "proc", 0, &cfg.proc_opts).map_err(|e| format!("mount /proc {}: {}", cfg.proc_opts, sys::errname(e)))?;
         }
